@@ -182,8 +182,14 @@ func (i *vFileInfo) ModTime() time.Time { return time.Time{} }
 func (i *vFileInfo) IsDir() bool        { return i.dir }
 func (i *vFileInfo) Sys() interface{}   { return nil }
 
+// vGonePath: a path that an operation has just removed or renamed away (event-level harnesses without a file table)
+var vGonePath string
+
 func stubFsLstat(name string) (fs.FileInfo, error) {
 	m := vfs
+	if vGonePath != "" && name == vGonePath {
+		return nil, vPathErr("lstat", os.ErrNotExist)
+	}
 	if d := m.dirByPath(name); d != nil {
 		switch d.state {
 		case vDirOK, vDirUnread:
@@ -231,6 +237,15 @@ func stubFsStat(name string) (fs.FileInfo, error) {
 		}
 	}
 	return stubFsLstat(name)
+}
+
+// the clock of the model: every reading is one second later than the previous one, far later than the modification time
+// the model's files report (the zero time): a file moved or linked into a directory keeps the mtime of its content
+var vClock int64
+
+func stubNow() time.Time {
+	vClock++
+	return time.Time{}.Add(1000*time.Hour + time.Duration(vClock)*time.Second)
 }
 
 var vENOTDIR = vNewErr("not a directory")
